@@ -107,7 +107,7 @@ STMT_EMBED = {
     "set": lambda Q, iv: Q.update(Table("t")).set("d", Table("t").d + iv),
     "insert": lambda Q, iv: Q.into(Table("t")).insert(1, Function("NOW") + iv),
 }
-EMBED_IVS = [dict(days=1), dict(days=10, minutes=5), dict(hours=36), dict(years=1, months=2), dict(seconds=1, microseconds=5),
+EMBED_IVS = [dict(days=1, hours=2, dialect="MYSQL"), dict(hours=36, dialect="POSTGRESQL"), dict(days=3, dialect="ORACLE"), dict(days=1), dict(days=10, minutes=5), dict(hours=36), dict(years=1, months=2), dict(seconds=1, microseconds=5),
              dict(days=-3), dict(weeks=2), dict(quarters=1), dict(days=1, hours=2, minutes=3, seconds=4)]
 
 
@@ -150,17 +150,21 @@ def run_embed(case, res):
     global _CTXS
     if _CTXS is None:
         _CTXS = all_contexts()
-    kw = EMBED_IVS[case["iv"]]
+    kw = dict(EMBED_IVS[case["iv"]])
+    if "dialect" in kw:
+        # the constructor's optional dialect keyword: the statement's dialect still decides the form of the literal
+        from pypika_tortoise.enums import Dialects
+        kw["dialect"] = Dialects[kw["dialect"]]
     pos = case["pos"]
     # what the bare literal reads as (reference: the component model)
     if "weeks" in kw or "quarters" in kw:
         k, v = next(iter(kw.items()))
         exp = (1, "QUARTER" if k == "quarters" else "WEEK", [v])
     else:
-        comp = [kw.get(u, 0) for u in ("years", "months", "days", "hours", "minutes", "seconds", "microseconds")]
+        comp = [kw.get(u, 0) for u in ("years", "months", "days", "hours", "minutes", "seconds", "microseconds")]  # (dialect keyword ignored)
         exp = expected(comp)
     res.nontrivial = 1
-    res.states.append(h64(repr((sorted(kw.items()), pos))))
+    res.states.append(h64(repr((sorted((k_, str(v_)) for k_, v_ in kw.items()), pos))))
     for name, (ctx, form) in _CTXS.items():
         if pos.startswith("stmt:"):
             if name.startswith("enum:"):
